@@ -81,12 +81,28 @@ EventOK(e) ==
                       /\ (IF e.h1 \in DOMAIN byHash THEN byHash[e.h1] = rs ELSE TRUE)    \* same hash => same residual
               ELSE TRUE
 
+(* L2 (MODEL-DRIFT only): the numeric value HasherAlgo predicts - the k-th literal occurrence of the clause list owns *)
+(* the k-th prime, and the hash is the product of the primes of the occurrences kept (clauses of >= 2 literals without *)
+(* an implied literal; literals that are not neg-implied), computed here on base-10^4 limbs                            *)
+FirstPrimes == <<2, 3, 5, 7, 11, 13, 17, 19, 23, 29, 31, 37, 41, 43, 47, 53, 59, 61, 67, 71, 73, 79, 83, 89, 97, 101, 103, 107, 109, 113,
+                 127, 131, 137, 139, 149, 151, 157, 163, 167, 173, 179, 181, 191, 193, 197, 199, 211, 223, 227, 229>>
+RECURSIVE OccBase(_, _)
+OccBase(cnf, i) == IF i <= 1 THEN 0 ELSE Len(cnf[i - 1]) + OccBase(cnf, i - 1)
+KeptPrimes(cnf, pm) ==
+  UNION {{FirstPrimes[OccBase(cnf, i) + j] : j \in {k \in 1 .. Len(cnf[i]) : LitVal(pm, cnf[i][k]) # "F"}} :
+           i \in {k \in NonUnit(cnf) : ~ClauseSat(pm, cnf[k])}}
+RECURSIVE ProdLimbs(_)
+ProdLimbs(S) == IF S = {} THEN <<1>> ELSE LET x == CHOOSE y \in S : TRUE IN LMul(<<x>>, ProdLimbs(S \ {x}))
+TotalOcc(cnf) == OccBase(cnf, Len(cnf) + 1)
+HashDrift(e) == TotalOcc(hcnf) <= Len(FirstPrimes) /\ e.h1 # ProdLimbs(KeptPrimes(hcnf, e.pm))
+
 Step ==
   /\ l <= Len(Rec)
   /\ l' = l + 1
   /\ LET e == Rec[l] IN
      /\ "panic" \notin DOMAIN e /\ "inexact" \notin DOMAIN e
      /\ EventOK(e)
+     /\ (IF e.ev = "h_hash" /\ HashDrift(e) THEN PrintT(<<"DRIFT", l>>) ELSE TRUE)
      /\ hcnf' = IF e.ev = "h_new" THEN e.cnf ELSE hcnf
      /\ pmA' = IF e.ev \in {"pm_new", "pm_set", "pm_unset"} THEN e.a ELSE pmA
      /\ pmB' = IF e.ev = "pm_new" THEN e.b ELSE pmB
